@@ -46,8 +46,8 @@ pub fn plan(id: usize) -> Option<Plan> {
         3 => p(&[3], &[Conn, Conn, Sweep], GenOpts { kinds: ALL, ..d }, 750_000, 12_000_000, "exploration"),
         4 => p(&[4], &[Conn, Sweep, Reuse], GenOpts { kinds: MSG3, ..d }, 750_000, 12_000_000, "exploration"),
         5 => p(&[5], &[Conn, Sweep, Conn, Reuse], GenOpts { kinds: MSG3, ..d }, 750_000, 12_000_000, "exploration"),
-        6 => p(&[6], &[Conn, Sweep], GenOpts { kinds: REQ, ..d }, 750_000, 12_000_000, "exploration"),
-        7 => p(&[7], &[Conn, Sweep], GenOpts { kinds: RESP, ..d }, 750_000, 12_000_000, "exploration"),
+        6 => p(&[6], &[Conn, Sweep, Conn, Sweep, Reuse], GenOpts { kinds: REQ, ..d }, 750_000, 12_000_000, "exploration"),
+        7 => p(&[7], &[Conn, Sweep, Conn, Sweep, Reuse], GenOpts { kinds: RESP, ..d }, 750_000, 12_000_000, "exploration"),
         8 => p(&[8], &[Conn, Sweep, Conn, Sweep, Adversarial], GenOpts { kinds: MSG3, cfg_mask: 4 | 8, ..d }, 750_000, 12_000_000, "exploration"),
         9 => p(&[9], &[Conn, Sweep, Sweep], GenOpts { kinds: CHUNKY, chunk_heavy: true, ..d }, 750_000, 12_000_000, "exploration"),
         10 => p(&[10], &[Conn, Sweep, Conn, Sweep, Adversarial, Reuse], GenOpts { kinds: MSG3, ..d }, 750_000, 12_000_000, "exploration"),
